@@ -149,8 +149,25 @@ let cfg = ref { c_max_items = nat_of_int 1024; c_max_item_size = nat_of_int 1024
                 c_flags = []; c_sigext = []; c_ctplugins = []; c_contracts = []; c_now = Z0 }
 
 (* ---- printing ---- *)
+(* exception text "ClassName|message" is compared by class only: cut after the bar (both sides do this) *)
+let canon_hex (h : str) : str =
+  (* h is lower-case hex; look for "7c" at an even offset *)
+  let n = String.length h / 2 in
+  let rec find i = if i >= n then -1 else if h.[2*i] = '7' && h.[2*i+1] = 'c' then i else find (i + 1) in
+  let k = find 0 in
+  if k <= 0 then h else begin
+    let name = Bytes.create k in
+    let ok = ref true in
+    for i = 0 to k - 1 do
+      let c = Char.chr (hv h.[2*i] * 16 + hv h.[2*i+1]) in
+      Bytes.set name i c;
+      if not ((c >= 'a' && c <= 'z') || (c >= 'A' && c <= 'Z')) then ok := false
+    done;
+    let nm = Bytes.to_string name in
+    let ends_error = k >= 5 && String.sub nm (k - 5) 5 = "Error" in
+    if !ok && (ends_error || nm = "error") then String.sub h 0 (2 * k + 2) else h end
 let atom_str = function
-  | ABytes b -> "b" ^ (let h = hex_of_bytes b in if h = "-" then "" else h)
+  | ABytes b -> "b" ^ (let h = hex_of_bytes b in if h = "-" then "" else canon_hex h)
   | AStr b -> "s" ^ (let h = hex_of_bytes b in if h = "-" then "" else h)
   | AInt z -> "i" ^ str_of_z z
   | AFloat b -> "f" ^ hex_of_bytes b
@@ -166,7 +183,7 @@ let cache_str (c : cache) =
   let l = List.sort compare (List.map (fun (k, v) -> key_str k ^ "=" ^ val_str v) c) in
   if l = [] then "-" else String.concat "," l
 let stack_str (s : bytes list) =
-  if s = [] then "-" else String.concat "," (List.rev_map (fun b -> let h = hex_of_bytes b in if h = "-" then "e" else h) s)
+  if s = [] then "-" else String.concat "," (List.rev_map (fun b -> let h = hex_of_bytes b in if h = "-" then "e" else canon_hex h) s)
 let event_str = function
   | EvSigExt i -> "x" ^ string_of_int (int_of_nat i)
   | EvCt i -> "c" ^ string_of_int (int_of_nat i)
